@@ -70,7 +70,11 @@ def p_reference(grid, pattern):
 def case(c):
     import emg3d
     from emg3d import solver
-    grid = zoo.mesh({'shape': c['shape'], 'w': c['w']})
+    spec = {'shape': c['shape'], 'w': c['w']}
+    for k in ('origin', 'unit'):
+        if c.get(k) is not None:
+            spec[k] = c[k]
+    grid = zoo.mesh(spec)
     pattern = c['pattern']
     model = zoo.model(grid, c['model'])
     freq = c['freq']
@@ -87,6 +91,11 @@ def case(c):
 
     Pref, cshape = p_reference(grid, pattern)
     Pref = Pref.toarray()
+    # weights are ratios of differences of node coordinates: their rounding
+    # error grows with |coordinate| / width (far-away origins, tiny cells)
+    wtol = max(1e-13, 64*np.finfo(float).eps*max(
+        np.abs(x).max()/np.diff(x).min()
+        for x in (grid.nodes_x, grid.nodes_y, grid.nodes_z)))
     Nc = sum(fit.nedges(cshape))
     ci = fit.interior_mask(cshape)
 
@@ -152,7 +161,7 @@ def case(c):
     compared += Nc
     # P equals the reference on interior rows, zero on boundary rows
     perr = np.abs(P[fi] - Pref[fi]).max()
-    if not perr <= 1e-13:
+    if not perr <= wtol:
         i, j = np.unravel_index(np.argmax(np.abs(P[fi] - Pref[fi])),
                                 P[fi].shape)
         V('prolongation-differs-from-reference',
@@ -164,12 +173,12 @@ def case(c):
     if P.min() < 0:
         V('prolongation-negative-weight', f'min weight {P.min():.2e}')
     rs = np.abs(P[fi].sum(axis=1) - 1).max()
-    if not rs <= 1e-13:
+    if not rs <= wtol:
         V('prolongation-not-partition-of-unity',
           f'max |row sum - 1| = {rs:.2e}')
     # R = P^T on interior x interior
     rerr = np.abs(R[np.ix_(ci, fi)] - P[np.ix_(fi, ci)].T).max()
-    if not rerr <= 1e-13:
+    if not rerr <= wtol:
         V('restriction-not-transpose-of-prolongation',
           f'max |R - P^T| = {rerr:.2e} (pattern {pattern})')
     # adds, never touches boundary (sentinels), complex linearity
@@ -335,6 +344,18 @@ def run(ctx):
                     time_cap=ctx.budget or (600 if q else 3000))
     if not ctx.wants('transfer'):
         return
+    # the same maps far away from the origin / with tiny and huge cells: the
+    # operators depend on node DIFFERENCES only (translation invariance)
+    for pattern in range(7):
+        shs = shapes_for(pattern, True)
+        for sh in (shs[0], shs[len(shs)//2], shs[-1]):
+            for origin, unit in (((512000., 6704000., -2000.), 1.0),
+                                 ((-3.3e6, 1.2e5, 7.7e4), 0.05),
+                                 ((0.0, 0.0, 0.0), 1e-7),
+                                 ((-1e9, 2e9, 3e9), 1e4)):
+                cs.append({'pattern': pattern, 'shape': sh, 'w': 'rnd',
+                           'freq': 3.0, 'origin': origin, 'unit': unit,
+                           'model': {'case': 'VTI', 'prof': 'rnd'}})
     ctx.explore('transfer', FN, cs, engine='E1',
                 rule='7 patterns x all admissible small shapes x width '
                      'profiles x (real triaxial+mu_r | complex VTI); full '
